@@ -5,8 +5,8 @@
 (* n / r and vh are the canonical digest of the printed value stream (python  *)
 (* side: independent strict JSON reader, resp. PyYAML's syntax + YAML 1.2     *)
 (* core resolution for YAML output).  The agreement register of Routes.tla    *)
-(* must accept every observation; with hook H5 the route names must be the    *)
-(* ones the runners' gates predict and differ within a pair.                  *)
+(* must accept every observation.  Route names (hook H5) are NOT part of the  *)
+(* acceptance: the driver uses them for anti-vacuity statistics only.         *)
 EXTENDS TraceBase, Routes
 
 VARIABLES l, reg
@@ -18,7 +18,6 @@ Observe(e) ==
   /\ LET ob == Obs(e.route, N(e), e.vh)
      IN /\ Accept(reg, e.k, ob)
         /\ reg' = Store(reg, e.k, ob)
-  /\ (e.route # "" => e.route = ExpectedRoute(e.tool, e.kind, e.forced, e.yamlout, e.identity))
 
 Init == l = 1 /\ reg = << >>
 
